@@ -54,10 +54,17 @@ func newVerifier(prog *Prog) *Verifier {
 
 func (v *Verifier) reset(fi *FuncInfo, con *Contract) {
 	v.eng = &Engine{C: NewTermCtx(), shapes: map[string]*Shape{}, NonNeg: v.prog.nonNeg}
-	if con != nil && strings.Contains(con.Mode, "math") {
+	modes := map[string]bool{}
+	if con != nil {
+		for _, m := range strings.Fields(con.Mode) {
+			modes[m] = true
+		}
+	}
+	if modes["math"] {
 		v.eng.MathInts = true
 	}
-	if con != nil && strings.Contains(con.Mode, "hybrid") {
+	v.bigMath = modes["bigmath"]
+	if modes["hybrid"] {
 		v.eng.Hybrid = true
 	}
 	v.curFI = fi
@@ -77,11 +84,13 @@ func (v *Verifier) reset(fi *FuncInfo, con *Contract) {
 	if v.assumed == nil {
 		v.assumed = map[string]bool{}
 	}
+	if v.leanRefs == nil {
+		v.leanRefs = map[string]bool{}
+	}
 	v.unrolled = nil
 	v.notes = nil
 	v.globals = map[string]*Cell{}
 	v.globalInit = map[string]Val{}
-	v.allocCount = 0
 	v.negRefs = 0
 	v.topFrame = nil
 	v.frameTargets = nil
@@ -339,6 +348,10 @@ func (v *Verifier) verifyCase(fi *FuncInfo, con *Contract, rep *FuncReport, case
 	for _, cl := range con.Requires {
 		st.assume(v.asBool(v.evalSpec(fr, st, cl.Expr), fi.Decl.Pos()))
 	}
+	for i, cl := range con.Axioms {
+		st.assume(v.asBool(v.evalSpec(fr, st, cl.Expr), fi.Decl.Pos()))
+		v.leanRefs[con.AxiomRefs[i]+" ("+cl.Text+")"] = true
+	}
 	fr.old = st.fork()
 	v.topFrame = fr
 	// A cut/assume whose anchor statement no longer exists is skipped (only ever removes a lemma or
@@ -457,6 +470,24 @@ func (v *Verifier) prescanBoxesInput(fr *Frame, st *State, fi *FuncInfo, con *Co
 	}
 	// mark
 	v.prescanMark(fr, fi)
+	// by-value array parameters that are sliced: box the parameter variable itself
+	for obj, cell := range fr.vars {
+		vo, isVar := obj.(*types.Var)
+		if !isVar || !fr.boxed[vo] {
+			continue
+		}
+		if av, ok := st.vals[cell].(ArrVal); ok {
+			v.negRefs++
+			ref := c.Inti(int64(-v.negRefs))
+			st.vals[cell] = BoxedArr{Sh: av.Sh, Ref: ref}
+			v.eng.heapSetRows(st, av.Sh.Elem, ref, av.L)
+			if !con.MayAlias {
+				for _, s := range inputSlices {
+					st.assume(c.Not(c.Eq(s.Ref, ref)))
+				}
+			}
+		}
+	}
 	for _, p := range fr.pointees {
 		if !fr.boxed[p.param] {
 			continue
@@ -655,7 +686,7 @@ func (v *Verifier) heapFrameFormula(st *State, k string) *Term {
 	r := c.Bound("r", IntSort)
 	var cov []*Term
 	if strings.HasPrefix(k, "G:") {
-		if k == gBigBits || k == gAtomic {
+		if k == gBigBits || k == gAtomic || k == gBigVal {
 			cov = append(cov, c.ILt(c.Inti(0), r)) // objects allocated during the call
 		}
 		for _, t := range targets {
